@@ -97,11 +97,11 @@ def gen(ctx, q):
                 if "ALAC" in name and ch == 8 and not q:
                     ns = ns + [5000]
                 for n in ns:
-                    if q and (hash((f, ch, t, n, ctx.seed)) % 3 == 0) and n not in (0, 1):
+                    if q and (vlib.dhash((f, ch, t, n, ctx.seed)) % 3 == 0) and n not in (0, 1):
                         continue
-                    if q and n > 1000 and not ("ALAC" in name) and (ch != 1 or hash((f, t, ctx.seed)) % 3):
+                    if q and n > 1000 and not ("ALAC" in name) and (ch != 1 or vlib.dhash((f, t, ctx.seed)) % 3):
                         continue
-                    if q and n > 5000 and hash((f, ch, t, ctx.seed)) % 2:
+                    if q and n > 5000 and vlib.dhash((f, ch, t, ctx.seed)) % 2:
                         continue
                     noise = rng.below(4) != 0
                     vals = [sample(rng, t, w, noise) for _ in range(n * ch)]
